@@ -21,7 +21,7 @@ def run(ctx):
     if not ok_h:
         return
     quick = ctx.tier == "quick"
-    nprog = int(os.environ.get("VERIF_TIE_NPROG", "0")) or (24 if quick else 160)
+    nprog = int(os.environ.get("VERIF_TIE_NPROG", "0")) or (16 if quick else 120)
     results = engine.run_programs(ctx, nprog, 2 if quick else 4, ["canon", "perm", "closes"], cu=True, tag="ctie")
     ctx.cov["programs"] = engine.status_counts(results)
     ctx.cov["rule"] = ("typed random programs as in C01/C07 (every other one with enums, branch and match), 2 fact sets each, histories: "
